@@ -103,6 +103,15 @@ def check_one(m, c, fails, shrink=True):
         f = dict(c, kind="speedup-changes-output", expected=wa[:1200], got=wb[:1200])
         f["class"] = classify_case(m, c)
         fails.append(f)
+    elif not c["hard_wrap"] and all(isinstance(x, str) and ":" not in x for x in c["plugins"]) and len(d) % 4 == 0:
+        # the same through the shortcut mistune.markdown() and its cache of converters (plugins in the caller's order)
+        try:
+            sa = m.markdown(d, escape=c["escape"], plugins=list(c["plugins"]))
+            sb = m.markdown(d, escape=c["escape"], plugins=list(c["plugins"]) + ["speedup"])
+        except Exception:  # noqa
+            return True
+        if sa != sb or sa != wa:
+            fails.append(dict(c, kind="speedup-changes-output-of-markdown()", expected=sa[:1200], got=sb[:1200], class_=None))
     return True
 
 
@@ -162,7 +171,7 @@ def oracle(ctx, extra):
             "known_by_class": {k: sum(1 for f in known if f["class"] == k) for k in {f["class"] for f in known}},
             "rule": "documents: 50% generated with all plugin syntaxes, 10% interrupt/lazy fragments, 10% wrapped paragraphs (continuation lines indented by 0-5 spaces or tabs, inline constructs straddling the line break), tab-indented containers and constructs whose repeatable part is repeated 9-129 times, 15% strings dense in stop "
                     "characters / white space / hard and soft breaks / URLs / entities, 15% noise; every 8th a showcase of one plugin's constructs with that plugin enabled (abbreviations with multi-word, prefix and stop-character keys, uses wrapped over two lines), every 16th a table-of-contents directive over headings of every form (also setext headings that span two lines); configurations: core (25%), "
-                    "mistune.html's own set (15%), 1-8 random plugins; hard_wrap 35%, escape=False 25%; HTML compared with "
+                    "mistune.html's own set (15%), 1-8 random plugins (a quarter of the agreeing cases repeated through the shortcut mistune.markdown()); hard_wrap 35%, escape=False 25%; HTML compared with "
                     "plugins=P vs P+['speedup']; a difference is shrunk by delta debugging and classified by re-running with "
                     "only the block half / only the inline half of speedup",
             "samples": [json.dumps(gen_docs.interaction_doc(ctx.rng('s')))]}
